@@ -48,6 +48,9 @@ func patchMatrix(patchFile, repo, vdir string) int {
 		ids = append(ids, id)
 	}
 	sort.Strings(ids)
+	if only := os.Getenv("PATCH_PROPS"); only != "" {
+		ids = strings.Fields(only)
+	}
 	out := make([]string, len(ids))
 	sem := make(chan struct{}, 8)
 	var wg sync.WaitGroup
